@@ -1,5 +1,5 @@
 import PandoraModel.Properties.C14
-open Pandora.C14 Pandora.Interp
+open Pandora.C14 Pandora.C14.R Pandora.Interp
 -- tie to the source (tables regenerated on every run)
 #print axioms source_dirs
 #print axioms source_flag_ops
@@ -23,6 +23,8 @@ open Pandora.C14 Pandora.Interp
 #print axioms border_bit0_only_mccnn
 #print axioms border_bit0_only
 #print axioms mccnn_occlusion_full
+-- the code with proposed_fixes/C14-fill-from-nothing.diff applied (Model/InterpRepaired.lean): full strength
+#print axioms spec_holds_repaired
 -- the full-strength statement is false of the code: counterexamples (replayed from corpus/C14)
 #print axioms mccnn_mismatch_nan_counterexample
 #print axioms mccnn_mismatch_zero_counterexample
